@@ -18,6 +18,10 @@ type C05Case struct {
 	Lines []IniLine         `json:"ini"`
 	Args  []string          `json:"args"`
 	Mode  string            `json:"mode"` // "ini-normal-before" | "ini-asdefaults-before" | "ini-asdefaults-after"
+	// FaultyTail: the INI text ends with an entry naming no option, so the read
+	// (done before the command line) fails after the valid entries; the program
+	// goes on to parse the command line
+	FaultyTail bool `json:"faulty_tail,omitempty"`
 }
 
 var _ = Register("C05", func() interface{} { return new(C05Case) }, func(c interface{}) string { return c05Oracle(c.(*C05Case)) })
@@ -151,6 +155,9 @@ func genC05(t *rapid.T) *C05Case {
 	}
 	// group INI lines: header-less first, then by section
 	sort.SliceStable(c.Lines, func(i, j int) bool { return c.Lines[i].Section < c.Lines[j].Section })
+	if c.Mode != "ini-asdefaults-after" && len(c.Lines) > 0 && rapid.IntRange(0, 5).Draw(t, "faultyTail") == 0 {
+		c.FaultyTail = true
+	}
 	return c
 }
 
@@ -185,6 +192,9 @@ func c05Oracle(c *C05Case) string {
 		return ""
 	}
 	text, _ := RenderIni(c.Lines)
+	if c.FaultyTail {
+		text += "nosuchoptionzz = 1\n"
+	}
 	var b *Built
 	var perr, ierr error
 	pm := Safely(func() {
@@ -217,12 +227,19 @@ func c05Oracle(c *C05Case) string {
 		}
 		return ""
 	}
-	if ierr != nil {
+	if c.FaultyTail {
+		if ierr == nil {
+			st.Label("skip: the entry naming no option was accepted")
+			return ""
+		}
+		st.Label("INI read failed at its last entry, command line parsed afterwards")
+	} else if ierr != nil {
 		return fmt.Sprintf("mode %s: reading the INI failed: %v\n%s", c.Mode, ierr, text)
 	}
 	if perr != nil {
 		return fmt.Sprintf("mode %s: ParseArgs %q failed: %v (env %v)", c.Mode, c.Args, perr, c.Env)
 	}
+	var iniKept, iniLost []string
 	for _, o := range c.D.AllOpts() {
 		want, ok := ref.Vals[o.ID]
 		if !ok {
@@ -250,9 +267,25 @@ func c05Oracle(c *C05Case) string {
 			st.Label("winner " + ref.Sources[o.ID] + " among " + strings.Join(srcs, "+"))
 			st.NonTrivial(fmt.Sprintf("%s|%s|%s|%s", o.Kind, strings.Join(srcs, "+"), c.Mode, o.EnvDelim), map[string]interface{}{"kind": o.Kind, "sources": srcs, "mode": c.Mode, "winner": ref.Sources[o.ID], "args": c.Args, "env": c.Env, "ini": text})
 		}
+		if c.FaultyTail {
+			// Whether the entries before the failing one count as read is the
+			// implementation's choice, but it is one choice: either all of them
+			// rank above env/default tags, or none was applied
+			if ref.Sources[o.ID] == "ini" {
+				if ValEqual(got, want) {
+					iniKept = append(iniKept, o.ID)
+				} else {
+					iniLost = append(iniLost, fmt.Sprintf("%s (%s, sources %v) holds %s, the INI value is %s", o.ID, o.Display(), srcs, ShowVal(got), ShowVal(want)))
+				}
+			}
+			continue
+		}
 		if !ValEqual(got, want) {
 			return fmt.Sprintf("mode %s: option %s (%s, %s) has sources %v; expected the value from %q = %s, field holds %s\n args %q\n env %v\n ini:\n%s", c.Mode, o.ID, o.Display(), o.Kind, srcs, ref.Sources[o.ID], ShowVal(want), ShowVal(got), c.Args, c.Env, text)
 		}
+	}
+	if len(iniKept) > 0 && len(iniLost) > 0 {
+		return fmt.Sprintf("mode %s: the INI read failed at its last entry; of the entries before it some still rank above env/default tags (%v) and some were overridden: %v\n args %q\n env %v\n ini:\n%s", c.Mode, iniKept, iniLost, c.Args, c.Env, text)
 	}
 	return ""
 }
